@@ -64,15 +64,22 @@ class CB:
 
 
 class MCB:
+    """message callback i; runs a pending in-callback operation (unsubscribe itself / its neighbour) when it is next called"""
+
     def __init__(self, h, idx):
         self.h = h
         self.idx = idx
+        self.pending = []
 
     def __call__(self, priority, pgn, sa, timestamp, data):
         self.h.mcalls.append((self.h.w.now, self.idx))
+        if self.pending:
+            op = self.pending.pop(0)
+            (self.h.unsub_by_other if op[1] != self.idx else self.h.unsub_self).add(op[1])
+            self.h.do(op, inside=True)
 
     def __canon__(self):
-        return ('mcb', self.idx)
+        return ('mcb', self.idx, [repr(p) for p in self.pending])
 
 
 class H:
@@ -94,6 +101,8 @@ class H:
         self.regs = []          # reference: dicts reg, cb, delta, periodic, t_add, t_rm
         self.subs = [0] * NCB   # reference: registrations per message callback
         self.sub_problems = []
+        self.unsub_by_other = set()   # message callbacks unsubscribed by another callback during the delivery in progress
+        self.unsub_self = set()       # message callbacks that unsubscribed themselves during the delivery in progress
         self.busy = []          # intervals in which a callback kept the job thread busy
         self.w.run_for(0.01)
 
@@ -120,22 +129,37 @@ class H:
             self.subs[op[1]] = 0
         elif k == 'in':
             self.cbs[op[1]].pending.append(op[2])
+        elif k == 'min':
+            self.mcbs[op[1]].pending.append(op[2])
         elif k == 'gap':
             w.run_for(op[1])
         if not inside and k != 'gap':
             w.run_for(SETTLE)
-        if not inside and k in ('sub', 'unsub'):
+        if not inside and k in ('sub', 'unsub', 'min'):
             self.probe_subs()
 
     def probe_subs(self):
         n0 = len(self.mcalls)
+        want = list(self.subs)            # registrations when the frame arrives
+        self.unsub_by_other = set()
+        self.unsub_self = set()
         self.bus.ghost_node().send((6 << 26) | (0xFE << 16) | (0x55 << 8) | 0x42, bytes([1, 2, 3]))
         self.w.run_for(SETTLE)
         got = [0] * NCB
         for (_t, i) in self.mcalls[n0:]:
             got[i] += 1
-        if got != self.subs:
-            self.sub_problems.append("a broadcast frame invoked the message callbacks %r times, registered %r" % (got, self.subs))
+        if not (self.unsub_by_other or self.unsub_self):
+            if got != want:
+                self.sub_problems.append("a broadcast frame invoked the message callbacks %r times, registered %r" % (got, want))
+            return
+        # a callback unsubscribed (itself / another one) while this frame was being delivered.  What this property fixes: a
+        # callback is not called again once unsubscribe(cb) has returned, and never more often than it is registered.
+        # (That every *other* listener still gets the frame is C05's statement and is judged there.)
+        for i in range(NCB):
+            if got[i] > want[i]:
+                self.sub_problems.append("a broadcast frame invoked message callback %d %d times, registered %d" % (i, got[i], want[i]))
+            elif i in self.unsub_self and got[i] > 1:
+                self.sub_problems.append("message callback %d was called again after its unsubscribe() had returned" % i)
 
     def lam(self):
         return self.eps + 0.6e-3
@@ -294,6 +318,18 @@ COINCIDING = [
 ]
 
 
+# histories of depth 3 / 4 in which a message callback unsubscribes itself or its neighbour while a frame is being delivered
+# (depth 3 is beyond the quick tier's full-alphabet bound); judged in both tiers
+UNSUB_INSIDE = [
+    [('sub', 0), ('sub', 1), ('min', 0, ('unsub', 0))],
+    [('sub', 1), ('sub', 0), ('min', 1, ('unsub', 1))],
+    [('sub', 0), ('sub', 1), ('min', 0, ('unsub', 1))],
+    [('sub', 0), ('sub', 1), ('min', 1, ('unsub', 0))],
+    [('sub', 0), ('sub', 0), ('sub', 1), ('min', 0, ('unsub', 0))],
+    [('sub', 0), ('sub', 1), ('sub', 1), ('min', 0, ('unsub', 0))],
+]
+
+
 def alphabet(hist):
     deltas = DELTAS_Q if _MODE['tier'] == 'quick' else DELTAS_T
     A = []
@@ -311,6 +347,8 @@ def alphabet(hist):
     for i in range(2):
         A.append(('sub', i))
         A.append(('unsub', i))
+        A.append(('min', i, ('unsub', i)))
+        A.append(('min', i, ('unsub', (i + 1) % 2)))
     for g in ([0.005, 0.015, 0.6] if _MODE['tier'] == 'quick' else [0.0005, 0.005, 0.015, 0.6]):
         A.append(('gap', g))
     return A
@@ -345,7 +383,8 @@ def csig(probs):
 
 RULE = ("state = canonical form of the real ECU (timer list with deadlines relative to now on a 1 ms grid, subscriber list, "
         "pending in-callback operations) + job thread's blocked-until; transition = one operation (add_timer one-shot/periodic "
-        "with a period from the grid, remove_timer, subscribe, unsubscribe, the same issued from inside a callback, idle gap); "
+        "with a period from the grid, remove_timer, subscribe, unsubscribe, the same issued from inside a timer callback, a message callback "
+        "that unsubscribes itself / its neighbour when next called, idle gap); "
         "every distinct state is judged against the reference timer list now, 0.7 s and 5.2 s later")
 ASSUME = ["scheduling latency = the configured job-thread wake latency (0.05 ms or 2 ms) + 0.6 ms",
           "the k-th point of a period grid is judged with k * 0.12 us slack (double-precision rounding of deadline += delta at clock values ~1.7e9)",
@@ -368,7 +407,7 @@ def run(tier, seed):
         for eps in (50e-6, 2e-3):
             cfg = ('cfg', eps)
             depth = 2 if quick else 3
-            roots = [[cfg]] + [[cfg] + list(h) for h in COINCIDING]
+            roots = [[cfg]] + [[cfg] + list(h) for h in COINCIDING + UNSUB_INSIDE]
             r = mc.bfs('vf.props.c12', roots, lambda i, d=depth: d if i == 0 else 0, acc, probe=True, sig=csig)
             info['wake_latency=%g' % eps] = {'states_per_level': r['levels'], 'depth_completed': r['depth_completed'],
                                             'frontier_emptied': r['frontier_emptied'], 'alphabet': len(alphabet([cfg]))}
